@@ -35,15 +35,19 @@ Definition ev_fresh (st : xstate) (e : event) : Prop :=
   | _ => True
   end.
 
-(* a block confirmed by the parser starts at least HDR_MIN bits after the block confirmed before it.
-   (parse() consumes the 48-bit magic and the 32-bit CRC of a header, possibly over several calls that
-   return MORE when the header straddles input blocks: the LAST call may consume fewer than 32 bits, so
-   the hypothesis is stated against the previous base [x_next], not against the parser's position.) *)
+(* [ev_prog] (XOwn.v): a block confirmed by the parser starts at least HDR_MIN bits after the block
+   confirmed before it.  (parse() consumes the 48-bit magic and the 32-bit CRC of a header, possibly over
+   several calls that return MORE when the header straddles input blocks: the LAST call may consume fewer
+   than 32 bits, so the hypothesis is stated against the previous base [x_next], not against the parser's
+   position.)  [ev_next] is the same statement under the name the liveness files use. *)
 Definition ev_next (st : xstate) (e : event) : Prop :=
   match e with
   | EvParse1 _ (POk bs _ _ _) => x_next st + HDR_MIN <= d_bit bs
   | _ => True
   end.
+
+Lemma ev_prog_next st e : ev_prog st e <-> ev_next st e.
+Proof. destruct e; simpl; tauto. Qed.
 
 (* a scan() call that finds a magic stops strictly after the position it started from *)
 Definition ev_scan_prog (e : event) : Prop :=
